@@ -21,7 +21,7 @@ META = {
 }
 
 FLAGS = list(itertools.product([True, False], repeat=4))
-PLANS = {"none": [], "38": [(0, 3, 8)], "34": [(0, 3, 4)], "68-24": [(0, 6, 8), (144, 2, 4)], "34-58": [(0, 3, 4), (72, 5, 8)], "44-34": [(0, 4, 4), (96, 3, 4)]}
+PLANS = {"none": [], "late34": [(96, 3, 4)], "168": [(0, 16, 8)], "24-84": [(0, 2, 4), (48, 8, 4)], "38": [(0, 3, 8)], "34": [(0, 3, 4)], "68-24": [(0, 6, 8), (144, 2, 4)], "34-58": [(0, 3, 4), (72, 5, 8)], "44-34": [(0, 4, 4), (96, 3, 4)]}
 
 
 def mk(fl, bins, ntr, prange=(60, 62), nv=None):
@@ -191,6 +191,19 @@ def q_cap(fl, bins, plan, kmax):
                  desc="trailing rest up to a symbolic cap: total duration rounded up to the bar end")
 
 
+def q_late_signature(fl, bins):
+    """signature change at a bar line while another track, ahead in the interleaving order, has a note exactly there"""
+    def fn(ctx):
+        tok = mk(fl, bins, 2)
+        p = Piece(2, "late34")
+        p.add(1, 61, 12 * ctx.int("k", 0, 9), 12, ctx.int("v1", 1, 127))
+        p.add(1, 62, 96 + 12 * ctx.int("j", 0, 2), 12, 64)
+        p.add(0, 60, 96 + 12 * ctx.int("i", 0, 8), 24, ctx.int("v2", 1, 127))
+        return roundtrip(ctx, tok, p)
+    return Query(f"late_signature/f{''.join(str(int(x)) for x in fl)}-b{bins}", fn, CL,
+                 desc="first signature event only at the second bar line, notes of the other track on that line")
+
+
 def q_sim(fl, bins):
     def fn(ctx):
         tok = mk(fl, bins, 2)
@@ -219,10 +232,13 @@ def queries(tier, seed):
         for plan in PLANS:
             qs.append(q_onset(FLAGS[0], 1, plan, 100))
         qs.append(q_onset(FLAGS[15], 2, "34-58", 100))
+        qs.append(q_onset(FLAGS[15], 2, "24-84", 60))       # both ends of the time-signature range (2 and 16 eighths)
         qs.append(q_cap(FLAGS[0], 1, "none", 120))
         qs.append(q_cap(FLAGS[15], 2, "34-58", 100))
         qs.append(q_sim(FLAGS[0], 1))
         qs.append(q_sim(FLAGS[15], 2))
+        qs.append(q_late_signature(FLAGS[0], 1))
+        qs.append(q_late_signature(FLAGS[15], 2))
     else:
         for fl in FLAGS:
             for bins in (1, 2, 5, 8):
@@ -236,4 +252,5 @@ def queries(tier, seed):
                 qs.append(q_cap(fl, bins, plan, 150))
         for fl in FLAGS:
             qs.append(q_sim(fl, 2))
+            qs.append(q_late_signature(fl, 2))
     return qs
